@@ -72,6 +72,7 @@ class Mirror:
         self.t = Tables()
         self.sup = suppressed
         self.depth = 0
+        self.max_depth = FUEL
 
     # -- encoding of results for tables
     def _res(self, f):
@@ -254,7 +255,7 @@ class Mirror:
     def unm(self, d, x):
         self.depth += 1
         try:
-            if self.depth > FUEL:
+            if self.depth > self.max_depth:
                 raise ModelRaise("ERecursion")
             return self._unm(d, x)
         finally:
@@ -306,7 +307,7 @@ class Mirror:
     def mar(self, d, x):
         self.depth += 1
         try:
-            if self.depth > FUEL:
+            if self.depth > self.max_depth:
                 raise ModelRaise("ERecursion")
             return self._mar(d, x)
         finally:
@@ -368,6 +369,7 @@ class Group:
         self.mirror = Mirror(self.reg, suppressed["u"])
         self.sup = suppressed
         self.cases = []       # (dir, root index, enc input, enc observed, description)
+        self.fuel = FUEL
         self.orders = {"u": {}, "m": {}}     # emitted ty -> emitted node list (graph.static_order as observed)
         self.order_problems = []
         self.reg.build_reverse(roots)
@@ -398,6 +400,10 @@ class Group:
         obs = self.observe(direction, ri, x)
         impl.clear_caches()
         self.mirror.depth = 0
+        self.mirror.max_depth = self.fuel
+        import sys
+        lim = sys.getrecursionlimit()
+        sys.setrecursionlimit(max(lim, 40 * self.fuel + 2000))
         try:
             if direction == "u":
                 self.mirror.unm(self.roots[ri], x)
@@ -407,6 +413,8 @@ class Group:
             pass
         except RecursionError:
             pass
+        finally:
+            sys.setrecursionlimit(lim)
         enc_obs = f"(Ok {self.reg.enc(obs[1])})" if obs[0] == "ok" else f"(@Raise pv {obs[1]})"
         desc = {"dir": direction, "type": repr(self.pytys[ri]), "input": repr(x)[:300],
                 "observed": (repr(obs[1])[:300] if obs[0] == "ok" else obs[1])}
@@ -451,8 +459,8 @@ class Group:
         base = self.emit(name, strict)
         orders = coq_list([f"({k}, {v})" for k, v in self.orders["u"].items()], "(ty * list node)")
         extra = (f"Definition orders : list (ty * list node) :=\n  {orders}.\n"
-                 f"Definition bad_mech := mismatches (mech_case_ok rt E orders {FUEL} {coq_bool(strict)}) cases.\n"
-                 f"Definition bad_agree := mismatches (mech_spec_agree rt E orders {FUEL}) cases.\n"
+                 f"Definition bad_mech := mismatches (mech_case_ok rt E orders {self.fuel} {coq_bool(strict)}) cases.\n"
+                 f"Definition bad_agree := mismatches (mech_spec_agree rt E orders {self.fuel}) cases.\n"
                  f"Definition hyps_ok := orders_hyps_ok E [{self.reg.leaves['Any']}%nat] orders.\n")
         return base.replace(f"End {name}.\n", extra + f"End {name}.\n")
 
@@ -503,7 +511,7 @@ class Group:
             f"  {coq_list([coq_pair(coq_nat(a), coq_nat(b)) for a, b in self.atom_eq_pairs()], '(nat * nat)')}\n"
             f"  {none_enc}\n  {sup}.\n"
             f"Definition cases : list case :=\n  {cases}.\n"
-            f"Definition bad := mismatches (case_ok rt E {FUEL} {coq_bool(strict)}) cases.\n"
+            f"Definition bad := mismatches (case_ok rt E {self.fuel} {coq_bool(strict)}) cases.\n"
             f"End {name}.\n"
         )
 
